@@ -200,7 +200,7 @@ PROPS = {
     },
     "C09": {
         "level": "proof",
-        "suites": ["hist", "real_hist"],
+        "suites": ["hist", "dropped", "real_hist"],
         "columns": ["files"],
         "rule": "histories over the full C01 alphabet generated while running (edit/revert source, edit rules incl. invalid files, build, goal build, clean, goal clean, tamper, delete target, delete cache entry, delete ruler directory or parts, chmod), 260 quick / 4000 thorough, graphs of 1..6 (9) rules with multi-target rules, transitive edges, commands in a mini-language (constant, copy, concatenation with tags from a small pool so equal contents are common, chmod), a quarter with failing rules and missing leaves; corpus cases first. After every op the implementation's verdict, executed script lines, status lines, workspace, cache listing, decoded history files and file-state table are compared with the model (only the columns this property reads). Distinct by hash of the history; non-trivial = contains a successful build." + " Monitor: every mutating System call ruler makes outside commands is classified by an independent reachability computation (in-scope target or ruler directory), and every out-of-scope file must keep content, mtime and permissions across the invocation; goals: none and random targets."
                 + " Suite real_hist: 12 quick / 150 thorough histories (writes, tampered and deleted targets, chmod, builds and cleans with and without goal, deleted ruler directory / cache directory / table, a failing rule in a third of them) run with the REAL ruler binary (built from /repo without cfg flags: main.rs argument handling, RealSystem, /bin/sh commands, OS threads under the OS scheduler) in a scratch directory on the real file system; after every operation workspace files with permission bits, the cache listing, the number of history files, the status lines (as a multiset) and success/failure are compared with the model; cache names are recomputed from contents.",
